@@ -825,6 +825,8 @@ func checkC11(r *Run) {
 	c11PointerTransparency(r)
 	c11ParserWiring(r)
 	c11NoNavigationCache(r)
+	r.Rule("R7", "receiver chains are linked: an identifier built per segment in a loop takes the previously built identifier as its callee", 0)
+	receiverChainRule(r, "R7")
 }
 
 var _ = fmt.Sprint
